@@ -11,6 +11,7 @@ use std::io::Cursor;
 use std::sync::atomic::{AtomicUsize, Ordering};
 
 mod codec;
+mod packets;
 
 pub struct CountingAlloc;
 pub static MAX_REQ: AtomicUsize = AtomicUsize::new(0);
@@ -65,6 +66,8 @@ fn main() {
         "varint" => codec::varint_roundtrip(seed),
         "varlong" => codec::varlong_roundtrip(seed),
         "alloc" => codec::alloc_bound(seed),
+        "packets" => packets::roundtrip(seed),
+        "malformed" => packets::malformed(seed),
         other => {
             eprintln!("unknown scenario {other}");
             std::process::exit(2);
